@@ -304,6 +304,12 @@ class EBB3Hooks(UnrollMixin, Hooks):
         if self.decode_faults and isinstance(target, Bound) and target.name == 'decode' and \
                 isinstance(target.obj, Opaque) and target.obj.label.startswith('reply#'):
             return ('UnicodeDecodeError',)
+        if self.decode_faults and isinstance(target, ExtRef) and \
+                target.dotted in ('packaging.version.parse', 'packaging.version.Version') and \
+                args and not (isinstance(args[0], Str) and args[0].is_lit()):
+            # text taken from the reply of an unverified device need not be a version number
+            # ("EBB Firmware Version abc"): packaging raises InvalidVersion (a ValueError)
+            return ('packaging.version.InvalidVersion',)
         if not self.inject:
             return ()
         if isinstance(target, Bound) and target.obj == PORT and target.name in PORT_IO:
